@@ -25,6 +25,22 @@ def c02_order():
         return errs[:2]
     finally: g.terminate(2)
 
+def c02_dropped_callback():
+    import gc
+    g, gw = gwpair()
+    try:
+        got = []
+        ch = gw.remote_exec("channel.receive()\nfor i in range(6): channel.send(('item', i))")
+        ch.setcallback(got.append)
+        ch.send(None)
+        del ch
+        gc.collect()
+        t0 = time.time()
+        while len(got) < 6 and time.time() - t0 < T: time.sleep(0.02)
+        want = [("item", i) for i in range(6)]
+        return [] if got == want else [f"callback channel whose object was dropped got {got!r:.120}"]
+    finally: g.terminate(2)
+
 def c03_close():
     g, gw = gwpair()
     try:
@@ -64,7 +80,15 @@ def c04_kill():
         ch = gw.remote_exec("for i in range(3): channel.send(i)\nchannel.receive()")
         cbitems = []
         chcb = gw.remote_exec("channel.send('x'); channel.receive()")
-        chcb.setcallback(cbitems.append, endmarker="END")
+        late = []
+        def cb(item):
+            cbitems.append(item)
+            if item == "END":
+                # the connection is reported lost at this very moment: a new channel must be refused, not handed out and forgotten
+                try: late.append(gw.newchannel())
+                except OSError: late.append("refused")
+                except Exception as e: late.append(type(e).__name__)
+        chcb.setcallback(cb, endmarker="END")
         time.sleep(0.3)
         os.kill(pid, signal.SIGKILL)
         bad = []
@@ -79,6 +103,7 @@ def c04_kill():
         except Exception as e: bad.append(f"waitclose raised {type(e).__name__}")
         time.sleep(0.3)
         if cbitems != ["x", "END"]: bad.append(f"callback saw {cbitems}")
+        if late != ["refused"]: bad.append(f"newchannel() from inside the endmarker callback after the loss: {late!r:.80} (expected OSError)")
         for name, f in (("newchannel", gw.newchannel), ("remote_exec", lambda: gw.remote_exec("pass")), ("send", lambda: ch.send(1))):
             try: f(); bad.append(f"{name} did not raise OSError after connection loss")
             except OSError: pass
@@ -160,6 +185,28 @@ def c10_callback():
         q = mc.make_receive_queue(endmarker=None)
         items = [q.get(timeout=T) for _ in range(2)]
         if [x[1] for x in items] != [gw.id + "-worker", None] and sorted(str(x[1]) for x in items) != sorted([gw.id + "-worker", "None"]): bad.append(f"multichannel queue {items}")
+        return bad
+    finally: g.terminate(2)
+
+def c10_dropped_endmarker():
+    """a callback channel whose Channel object was dropped: when the remote execution ends, the endmarker is due (and the callback table entry goes)"""
+    import gc
+    g, gw = gwpair()
+    try:
+        got = []
+        ch = gw.remote_exec("channel.receive()\nfor i in range(3): channel.send(i)")
+        ch.setcallback(got.append, endmarker="END")
+        ch.send(None)
+        cid = ch.id
+        del ch
+        gc.collect()
+        t0 = time.time()
+        while (not got or got[-1] != "END") and time.time() - t0 < 3: time.sleep(0.02)
+        bad = []
+        if got != [0, 1, 2, "END"]:
+            bad.append(f"dropped-callback-endmarker: after the remote execution ended the callback saw {got!r} - no endmarker (the peer, made send-only by CHANNEL_LAST_MESSAGE, sends no CHANNEL_CLOSE)")
+        elif cid in gw._channelfactory._callbacks:
+            bad.append("dropped-callback-endmarker: callback table still lists the finished conversation")
         return bad
     finally: g.terminate(2)
 
